@@ -959,7 +959,13 @@ def gen_family(rng, force=(), forbid=(), n_masters=None, max_glyphs=14, p_sparse
         if marks:
             dcats[marks[0][0]] = "mark"
         dslib["public.openTypeCategories"] = dcats
+    # a non-default <source> that names its UFO's default layer explicitly (layer="public.default")
+    explicit_default_layer = bool(len(masters) >= 2 and "explicit_default_layer" not in forbid
+                                  and rng.random() < 0.1)
+    if explicit_default_layer:
+        on.add("explicit_default_layer")
     fam = {"features_on": sorted(on), "upm": upm, "axes": axes, "masters": masters, "source_order": source_order,
+           "explicit_default_layer": explicit_default_layer,
            "include_files": include_files,
            "partial_source_locations": (rng.choice([True, "all"]) if axes and rng.random() < 0.3 else False),
            "sparse": sparse, "rules": rules, "instances": instances, "dslib": dslib,
